@@ -31,7 +31,7 @@ noncomputable section
 theorem dlamdv_eq (p : SedovFuncs.P) (v : ℝ) (B : Std.Bases p v) :
     SedovFuncs.L1.dlamdv p v = SedovFuncs.L1.l_fun_dv p v := by
   obtain ⟨hs1, hs2, hs3, hs4⟩ := B
-  simp only [epv_deriv, epv_leaf]
+  simp only [epv_semi_deriv, epv_semi_leaf]
   have h1 := hs1.ne'; have h2 := hs2.ne'; have h3 := hs3.ne'
   have h4 : p.a_val ≠ 0 := left_ne_zero_of_mul h1
   have h5 : p.b_val ≠ 0 := left_ne_zero_of_mul h2
@@ -45,7 +45,7 @@ theorem efun01_eq (p : SedovFuncs.P) (v : ℝ) (B : Std.Bases p v) (kn : ℕ) (h
       * psi1 (SedovFuncs.L1.l_fun p) (SedovFuncs.L1.l_fun_dv p) (SedovFuncs.L1.g_fun p) (fun v => p.a_val * v) kn v := by
   have he : SedovFuncs.L1.efun01 p v = SedovFuncs.L1.dlamdv p v * SedovFuncs.L1.l_fun p v ^ (p.geometry + 1) * p.gpogm
       * SedovFuncs.L1.g_fun p v * v ^ 2 := by
-    simp only [epv_leaf]
+    simp only [epv_semi_leaf]
   have hl := Std.l_pos p v B
   have ha : p.a_val ≠ 0 := left_ne_zero_of_mul B.x1.ne'
   have hpow : SedovFuncs.L1.l_fun p v ^ (p.geometry + 1) = SedovFuncs.L1.l_fun p v ^ (kn - 1) * SedovFuncs.L1.l_fun p v ^ 2 := by
@@ -62,7 +62,7 @@ theorem efun02_eq (p : SedovFuncs.P) (v : ℝ) (B : Std.Bases p v) (kn : ℕ) (h
       * psi2 (SedovFuncs.L1.l_fun p) (SedovFuncs.L1.l_fun_dv p) (SedovFuncs.L1.h_fun p) kn v := by
   have he : SedovFuncs.L1.efun02 p v = SedovFuncs.L1.dlamdv p v * SedovFuncs.L1.l_fun p v ^ (p.geometry - 1)
       * SedovFuncs.L1.h_fun p v * (8 / ((p.geometry + 2 - p.omega) ^ 2 * p.gamp1)) := by
-    simp only [epv_leaf]
+    simp only [epv_semi_leaf]
   have hpow : SedovFuncs.L1.l_fun p v ^ (p.geometry - 1) = SedovFuncs.L1.l_fun p v ^ (kn - 1) := by
     have e : p.geometry - 1 = ((kn - 1 : ℕ) : ℝ) := by rw [hgeo, Nat.cast_sub h1]; push_cast; ring
     rw [e, Real.rpow_natCast]
@@ -73,7 +73,7 @@ theorem efun02_eq (p : SedovFuncs.P) (v : ℝ) (B : Std.Bases p v) (kn : ℕ) (h
 /-- the pressure similarity function is continuous wherever x1, x3, x4 are positive (x2 does not occur) -/
 theorem h_continuousOn_std {p : SedovFuncs.P} (s : Set ℝ) (hs : ∀ v ∈ s, Mass.ClosedBases p v) :
     ContinuousOn (SedovFuncs.L1.h_fun p) s := by
-  unfold SedovFuncs.L1.h_fun
+  rw [(funext (EPV.Bridge.Semi.SedovFuncs_L1_h_fun p) : SedovFuncs.L1.h_fun p = _)]
   refine (ContinuousOn.mul (ContinuousOn.rpow_const (by fun_prop) ?_) (ContinuousOn.rpow_const (by fun_prop) ?_)).mul
     (ContinuousOn.rpow_const (by fun_prop) ?_)
   · intro v hv; exact Or.inl (hs v hv).x1.ne'
@@ -88,8 +88,8 @@ theorem leaf1_of_interior (p : SedovFuncs.P) (v : ℝ)
     (h1 : (4951760157141521 : ℝ) / 4951760157141521099596496896 ≤ p.b_val * (1 - 1 / 2 * p.xg2 * v)) :
     SedovFuncs.leaf p v = 1 ∧ SedovFuncs.efun01 p v = SedovFuncs.L1.efun01 p v
       ∧ SedovFuncs.efun02 p v = SedovFuncs.L1.efun02 p v := by
-  have hc0 : ¬ SedovFuncs.c0 p v := by simp only [epv_cond, not_le]; exact h0
-  have hc1 : SedovFuncs.c1 p v := by simp only [epv_cond]; exact h1
+  have hc0 : ¬ SedovFuncs.c0 p v := by simp only [epv_semi_cond, not_le]; exact h0
+  have hc1 : SedovFuncs.c1 p v := by simp only [epv_semi_cond]; exact h1
   simp only [epv_tree, hc0, hc1, if_false, if_true, and_self]
 
 /-- the standard branch of SedovFuncs is a `Branch` -/
@@ -149,7 +149,7 @@ theorem eval_std {p : SedovFuncs.P} {γ ω : ℝ} (kn : ℕ) (h1 : 1 ≤ kn) (hC
   have hL' : ∀ v ∈ Ioo (v0 γ k ω) (v2 γ k ω), 0 < SedovFuncs.L1.l_fun_dv p v :=
     fun v hv => Std.l_dv_pos hC (hint v hv) hd2pos.ne' hd3
   have hf' : ∀ v ∈ Ioo (v0 γ k ω) (v2 γ k ω), f (SedovFuncs.L1.l_fun p v) = p.a_val * v * SedovFuncs.L1.l_fun p v := by
-    intro v hv; rw [hf v hv]; simp only [epv_leaf]
+    intro v hv; rw [hf v hv]; simp only [epv_semi_leaf]
   obtain ⟨⟨I1, E1⟩, ⟨I2, E2⟩⟩ := branch_mono Br hL' f g h hf' hg hh
   obtain ⟨N1, N2⟩ := Br.pos_mono hL' (fun v hv => Std.h_pos p v (hB v hv))
   have ha2 := Mass.neg_a2_pos hC hγ hd2pos
